@@ -13,7 +13,7 @@ D9 send-failure discipline: every caller of send_connection_batch resets the lin
 """
 from ..absint import AbsInt, Bool, Entry, Num
 from ..ctx import full_slice_element, is_awaited_result_of, CONN, is_call, is_field, is_iter_next, result_arms, sname
-from ..expr import show, walk
+from ..expr import show, strip_old, walk
 from ..pathcond import PathA, calls_to, field_stores
 from .route import FWD, HSP, routing_sources
 
@@ -31,11 +31,8 @@ QDP = CONN + "::queue_data_packet"
 VECS = ("queue", "sequences", "queue_times")
 
 
-def up(fn, name):
-    for i, n in fn.upvar_names.items():
-        if n == name:
-            return ("upvar", i)
-    return None
+from .. import roles  # noqa: E402
+from ..roles import up  # noqa: E402  (parameter lookup: by name, else by unique type)
 
 
 def d1_payload_identity(ctx):
@@ -139,8 +136,15 @@ def d3_no_silent_drop(ctx):
     zero = pa2.lit(("bin", "Eq", ("const", 0, "usize"), ("field", ("field", ("as", res, "Ok"), "core::result::Result", "0"), "tuple", "0"), "usize"))
     # the routing decision is None
     none_f = b.FALSE
+    # the decision local: the Option whose payload is the index handed to the forwarder
+    dec = None
+    v0 = strip_old(pa.fa.val_operand(post[1]["args"][0], (post[0], len(fn.blocks[post[0]]["stmts"]))))
+    for x in walk(v0):
+        if x[0] == "var":
+            dec = x[1]
+            break
     for a in pa2.bdd.vars:
-        if a[0] == "is" and a[1][0] == "var" and fn.names.get(a[1][1]) == "sel_idx":
+        if a[0] == "is" and a[1][0] == "var" and dec is not None and a[1][1] == dec:
             none_f = pa2.is_atom(("is", a[1], "None"))
     allowed = b.OR(b.OR(err, zero), none_f)
     ok = pa2.entails(pcr, allowed)
@@ -265,7 +269,8 @@ def d6_drained_is_sent(ctx):
             for si, s in enumerate(blk["stmts"]):
                 if s["k"] == "assign" and s["p"]["l"] == 0 and not s["p"]["proj"] and s["rv"]["k"] == "agg" and s["rv"].get("vn") == "Ok":
                     oks.append((bi, si))
-        sent = [l for l, n in sa.names.items() if n == "sent"]
+        s0 = roles.counter(ctx.w, sa, "usize", start=0, step=None, hint="sent")
+        sent = [s0] if s0 is not None else []
         ok = False
         if oks and sent:
             ok = True
